@@ -35,7 +35,8 @@ def rand_genome(rng, n=None, base=None, rate=None):
 	else:
 		s = bytes(rng.choice(b'ACGT') for _ in range(n or rng.randint(800, 2500)))
 	cuts = sorted(rng.sample(range(1, len(s)), rng.choice([0, 0, 1, 2])))
-	return [s[a:b] for a, b in zip([0] + cuts, cuts + [len(s)])]
+	from vf.oracles.fasta import soft_mask
+	return [soft_mask(c) for c in (s[a:b] for a, b in zip([0] + cuts, cuts + [len(s)]))]
 
 
 class Genomes:
